@@ -381,7 +381,9 @@ ZeroId(pkt) ==
        IF t \in {SUBSCRIBE, UNSUBSCRIBE} THEN Len(pkt) >= b + 2 /\ pkt[b + 1] = 0 /\ pkt[b + 2] = 0
        ELSE IF t = PUBLISH /\ q > 0 THEN
             Len(pkt) >= b + 2 /\ LET tl == pkt[b + 1] * 256 + pkt[b + 2] IN
-                                 Len(pkt) >= b + 4 + tl /\ pkt[b + 3 + tl] = 0 /\ pkt[b + 4 + tl] = 0
+                                 \* no room for an identifier behind the topic, or the identifier is zero
+                                 \/ (Len(pkt) >= b + 2 + tl /\ Len(pkt) < b + 4 + tl)
+                                 \/ (Len(pkt) >= b + 4 + tl /\ pkt[b + 3 + tl] = 0 /\ pkt[b + 4 + tl] = 0)
        ELSE FALSE
 
 OnOut(h, pkt) ==
